@@ -3,7 +3,6 @@ package checks
 import (
 	"bytes"
 	"fmt"
-	"reflect"
 	"testing"
 
 	"github.com/veraison/psatoken"
@@ -271,20 +270,17 @@ func fmtI64(p *int64) string {
 }
 
 func TestC09_RoundTrip(t *testing.T) {
-	st := NewStats("C09", "TestC09_RoundTrip", "rapid: (valid) claims-sets of both profiles, and of a registered extension profile on each base profile (extra optional claim absent / zero / non-zero), via setters/literals -> EncodeClaimsToCBOR -> DecodeClaimsFromCBOR: identical getter results and byte-identical re-encoding; (invalid-but-decodable) model-generated invalid tokens encoded by the independent encoder, decoded, re-encoded: encoder error or same getter results. Non-trivial = beyond the canned builder sets (48/64-byte hashes, >=2 components, optional component text, non-ASCII text, negative client id, no-measurements after a decode, invalid-but-decodable); distinct = class vector + route")
-	st.Require = []string{"valid", "invalid-decoded", "P1", "P2", "nomeas-decoded", "extension"}
+	st := NewStats("C09", "TestC09_RoundTrip", "rapid: (valid) claims-sets of both profiles, and of registered extension profiles of six styles (own codec through the helpers on either base profile, inherited codec without profile claim, inherited codec and OID name, own claim whose Go field name shadows a base field, extension of an extension; own claims absent / zero / non-zero; wire map checked by the independent reader), via setters/literals -> EncodeClaimsToCBOR -> DecodeClaimsFromCBOR: identical getter results and byte-identical re-encoding; (invalid-but-decodable) model-generated invalid tokens encoded by the independent encoder, decoded, re-encoded: encoder error or same getter results. Non-trivial = beyond the canned builder sets (48/64-byte hashes, >=2 components, optional component text, non-ASCII text, negative client id, no-measurements after a decode, invalid-but-decodable); distinct = class vector + route")
+	st.Require = []string{"valid", "invalid-decoded", "P1", "P2", "nomeas-decoded", "extension", "style=ext-p2", "style=ext-p1", "style=inherit-p1", "style=inherit-p2-oid", "style=shadow-p2", "style=nested-p2"}
 	defer st.Flush(t)
 	registerMu.Lock()
 	defer registerMu.Unlock()
 	restore := psatoken.VerifCheckpointProfiles()
 	defer restore()
-	for _, pr := range []psatoken.IProfile{extP2Profile{}, extP1Profile{}} {
-		if err := psatoken.RegisterProfile(pr); err != nil {
-			t.Fatalf("VERIF-INFRA: %v", err)
-		}
-	}
+	registerExtStyles()
 	rapid.Check(t, func(t *rapid.T) {
 		p := drawProf(t)
+		styleLabel := ""
 		kind := rapid.SampledFrom([]string{"valid-setters", "valid-literal", "valid-decoded", "any-decoded", "any-decoded", "extension", "dup-profile-key"}).Draw(t, "kind")
 		var m *MClaims
 		var c psatoken.IClaims
@@ -312,44 +308,44 @@ func TestC09_RoundTrip(t *testing.T) {
 			}
 			valid = false // no claim about validity: only "never decodes to something else"
 		case "extension":
-			// a registered extension profile on either base profile, with the
-			// extra optional claim absent, zero, or non-zero
+			// a registered extension profile of one of six styles (own codec
+			// through the helpers / inherited codec / OID-named / shadowing
+			// field name / extension of an extension), own claims absent,
+			// zero, or non-zero
+			es := extStyles[rapid.IntRange(0, len(extStyles)-1).Draw(t, "style")]
+			styleLabel = es.Label
+			p = es.Base
 			m = GenValid(t, p, true)
 			if p == P1 {
 				m.Profile = sp(P1Name)
 			}
-			var ts *int64
-			switch rapid.IntRange(0, 3).Draw(t, "ts") {
-			case 0:
-			case 1:
-				ts = new(int64)
-			default:
-				v := rapid.Int64Range(0, 1<<53).Draw(t, "tsval")
-				ts = &v
-				if extRuleBroken(ts) {
-					v = 14
+			var own []*int64
+			for i := range es.OwnKeys {
+				var ts *int64
+				switch rapid.IntRange(0, 3).Draw(t, fmt.Sprintf("own%d", i)) {
+				case 0:
+				case 1:
+					ts = new(int64)
+				default:
+					v := rapid.Int64Range(0, 1<<53).Draw(t, fmt.Sprintf("own%d.val", i))
+					ts = &v
+					if extRuleBroken(ts) {
+						v = 14
+					}
 				}
+				own = append(own, ts)
 			}
-			if c, err = buildExt(m, ts); err != nil {
+			if c, err = es.build(m, own...); err != nil {
 				t.Fatalf("VERIF-INFRA: %v", err)
 			}
-			if p == P1 {
-				// the CBOR dispatcher only looks at key 265: decode into a
-				// fresh instance of the profile
-				decode = func(b []byte) (psatoken.IClaims, error) {
-					d, err := psatoken.NewClaims(ExtP1Name)
-					if err != nil {
-						return nil, err
-					}
-					return d, hdm.Unmarshal(b, d)
-				}
+			if msg := es.roundTrips(c, m, "cbor", own...); msg != "" {
+				t.Fatalf("C09 violated (extension): %s\n [%s]", msg, m.ClassVector())
 			}
-			orig := c
-			inner := decode
+			orig := extOwn(c)
 			decode = func(b []byte) (psatoken.IClaims, error) {
-				d, err := inner(b)
-				if err == nil && !reflect.DeepEqual(extTimestamp(orig), extTimestamp(d)) {
-					return nil, fmt.Errorf("the extension's own claim changed in the round trip: %v -> %v (bytes %x)", fmtI64(extTimestamp(orig)), fmtI64(extTimestamp(d)), b)
+				d, err := es.decodeCBOR(b)
+				if err == nil && extOwn(d) != orig {
+					return nil, fmt.Errorf("the extension's own claims changed in the round trip: %s -> %s (bytes %x)", orig, extOwn(d), b)
 				}
 				return d, err
 			}
@@ -384,7 +380,7 @@ func TestC09_RoundTrip(t *testing.T) {
 		}
 		cls := []string{p.String()}
 		if kind == "extension" {
-			cls = append(cls, "extension")
+			cls = append(cls, "extension", "style="+styleLabel)
 		}
 		if kind == "dup-profile-key" {
 			cls = append(cls, "dup-profile-key-decoded")
@@ -399,7 +395,7 @@ func TestC09_RoundTrip(t *testing.T) {
 		}
 		key := ""
 		if isBeyondBuilders(m) {
-			key = kind + "|" + m.ClassVector()
+			key = kind + styleLabel + "|" + m.ClassVector()
 		}
 		st.Case(key, cls...)
 		if key != "" && st.WantSample() {
